@@ -457,7 +457,7 @@ bool Model::doEquals(const EntityPtr &other) const
 {
     if (ComponentEntity::doEquals(other)) {
         auto model = std::dynamic_pointer_cast<Model>(other);
-        if ((model != nullptr) && pFunc()->equalUnits(model)) {
+        if ((model != nullptr) && (pFunc()->mUnits.size() == model->unitsCount()) && pFunc()->equalUnits(model)) {
             return true;
         }
     }
